@@ -25,8 +25,10 @@ from basictdf.tdfTypes import CameraViewPort
 
 KINDS = ["EMG", "FPCal", "FPData", "Data3D", "Force", "Events", "Optical"]
 # "EMG@c": the EMG class driven by the model MC_obj_EMGc.cfg (one label, three items: deeper channel histories)
-KINDS_OF = {"C02": ["EMG", "FPData", "Data3D", "Events"], "C15": ["EMG", "EMG@c", "FPCal", "FPData"], "C16": ["Data3D", "Force", "EMG"], "C18": ["Data3D", "Force", "EMG", "Events"],
-            "C20": KINDS}
+KINDS_OF = {"C02": ["EMG", "FPData", "Data3D", "Events"], "C15": ["EMG", "EMG@c", "FPCal", "FPData"],
+            # "X@e": the small models in which the content of items is edited in place
+            "C20x": ["EMG@e", "Data3D@e", "Force@e", "FPData@e", "Events@e"], "C16": ["Data3D", "Force", "EMG"], "C18": ["Data3D", "Force", "EMG", "Events"],
+            "C20": KINDS + ["EMG@e", "Data3D@e", "Force@e", "FPData@e", "Events@e"]}
 CHAN_KINDS = {"EMG", "FPCal", "FPData"}
 NI = 2          # instances the model drives
 SLOTS = 3       # slot 3: the "twin" of a decode (the same bytes decoded a second time)
@@ -44,6 +46,9 @@ class Harness:
         self.labels = dict(variants[seed % len(variants)])
         self.labels[9] = "no such label"
         self.tagc = 0
+        self.digests = {}
+        self.handed = {}      # instance -> list object handed to the block by the last assign / construct
+        self.share_ok = False
         self.nf = [3, 1, 0, 2][seed % 4]   # frame count of the blocks of this history
         if kind == "FPData" and self.nf == 0:
             self.nf = 2                    # the tag of an unlabelled platform lives in its first frame
@@ -57,6 +62,30 @@ class Harness:
             self.counter += 1
             self.reg[k] = (self.counter, obj)
         return self.reg[k][0]
+
+    def content_id(self, item):
+        """identity of the CONTENT of an item (its samples / geometry / values)"""
+        import hashlib
+        k = self.kind
+        try:
+            if k in ("EMG", "Data3D"):
+                raw = np.asarray(item.data).tobytes()
+            elif k == "Force":
+                raw = b"".join(np.asarray(a).tobytes() for a in (item.application_point, item.force, item.torque))
+            elif k == "FPData":
+                raw = b"".join(np.asarray(a).tobytes() for a in (item.application_point, item.force, item.torque))
+            elif k == "FPCal":
+                raw = np.asarray(item.size).tobytes() + np.asarray(item.position).tobytes()
+            elif k == "Events":
+                raw = np.asarray(item.values).tobytes() + bytes([item.type.value])
+            else:
+                raw = repr((item.logical_camera_index, np.asarray(item.camera_viewport.origin).tolist())).encode()
+        except Exception:  # noqa: BLE001
+            raw = b"?"
+        d = hashlib.sha256(raw).hexdigest()
+        if d not in self.digests:
+            self.digests[d] = len(self.digests) + 1
+        return self.digests[d]
 
     def label_id(self, item):
         if self.kind == "FPData":
@@ -87,6 +116,8 @@ class Harness:
             # only the kinds whose items carry a frame count are required to refuse a wrong length (C16)
             return [None, "a string", 42, object()][t % 4]
         base = np.arange(n * 9, dtype="<f4").reshape(n, 9) + 100 * t
+        if good and t % 4 == 0 and self.kind in ("EMG", "Data3D", "Force"):
+            base[:] = np.nan    # a track that was never seen: every frame missing
         k = self.kind
         if k == "EMG":
             return EMGTrack(text, base[:, 0].copy())
@@ -166,10 +197,10 @@ class Harness:
                 continue
             try:
                 items = self.items_of(b)
-                out.append(dict(ex=True, items=[dict(id=self.ident(x), label=self.label_id(x)) for x in items],
+                out.append(dict(ex=True, items=[dict(id=self.ident(x), label=self.label_id(x), val=self.content_id(x)) for x in items],
                                 chans=self.chans_of(b), aux=self.aux_of(b), szok=self.size_ok(b)))
             except Exception as x:  # noqa: BLE001
-                out.append(dict(ex=True, items=[dict(id=-1, label=-1)], chans=[-98, -97], aux=-1, szok=True))
+                out.append(dict(ex=True, items=[dict(id=-1, label=-1, val=-1)], chans=[-98, -97], aux=-1, szok=True))
         return out
 
     def size_ok(self, b):
@@ -177,7 +208,7 @@ class Harness:
         if self.nf == 0 and self.kind in ("EMG", "Data3D", "Force", "FPData") and len(self.items_of(b)):
             return True
         try:
-            return b.nBytes == len(self.encode_bytes(b))
+            return bool(b.nBytes == len(self.encode_bytes(b)))
         except Exception:  # noqa: BLE001
             return False
 
@@ -223,7 +254,8 @@ class Harness:
         fn = None
         if op == "construct":
             items = [self.new_item(l) for l in lab["labels"]]
-            o["xs"] = [dict(id=self.ident(x), label=l, good=True) for x, l in zip(items, lab["labels"])]
+            o["xs"] = [dict(id=self.ident(x), label=l, good=True, val=self.content_id(x)) for x, l in zip(items, lab["labels"])]
+            self.handed.pop(i, None)   # (a list given to a constructor may be kept by the block)
 
             def fn():
                 self.inst[i] = self.new_block(items)
@@ -237,7 +269,7 @@ class Harness:
         elif op == "add":
             x = self.new_item(lab["label"], lab["good"])
             c = lab["c"]
-            o.update(x=dict(id=self.ident(x), label=lab["label"]), good=lab["good"], c=c)
+            o.update(x=dict(id=self.ident(x), label=lab["label"], val=self.content_id(x) if lab["good"] else 0), good=lab["good"], c=c)
             k = self.kind
 
             def fn():
@@ -270,13 +302,16 @@ class Harness:
         elif op == "assign":
             xs = [self.new_item(l, g) for l, g in lab["pat"]]
             cs = lab["cs"]
-            o["xs"] = [dict(id=self.ident(x), label=l, good=g) for x, (l, g) in zip(xs, lab["pat"])]
+            o["xs"] = [dict(id=self.ident(x), label=l, good=g, val=self.content_id(x) if g else 0) for x, (l, g) in zip(xs, lab["pat"])]
             o["cs"] = cs
             k = self.kind
+            as_list = self.tagc % 3 != 0
+            if as_list:
+                self.handed[i] = xs
 
             def fn():
                 if k in ("Data3D", "Force"):
-                    b.tracks = xs if self.tagc % 2 else iter(xs)
+                    b.tracks = xs if as_list else iter(xs)
                 elif k == "FPCal":
                     b.platforms = list(zip(cs, xs))
                 else:
@@ -284,8 +319,9 @@ class Harness:
         elif op == "bulk_add":
             xs = [self.new_item(l) for l in lab["labels"]]
             cs = lab["cs"]
-            o["xs"] = [dict(id=self.ident(x), label=l, good=True) for x, l in zip(xs, lab["labels"])]
+            o["xs"] = [dict(id=self.ident(x), label=l, good=True, val=self.content_id(x)) for x, l in zip(xs, lab["labels"])]
             o["cs"] = cs
+            self.handed[i] = xs
             fn = lambda: b.add_platforms(xs, cs if cs else None)  # noqa: E731
         elif op == "lookup":
             what, key = lab["what"], lab["key"]
@@ -305,6 +341,54 @@ class Harness:
                 elif what == "badkey":
                     self.tagc += 1
                     b[[1.5, None, (0,), b"", slice(0, 2)][self.tagc % 5]]
+        elif op == "edit":
+            pos = lab["pos"]
+            o["pos"] = pos
+            items = self.items_of(b)
+            if pos > len(items):
+                return None
+            it = items[pos - 1]
+            self.tagc += 1
+            newv = float(7000 + self.tagc)
+            k = self.kind
+
+            def fn():
+                if k == "EMG":
+                    it.data[0] = newv
+                elif k == "Data3D":
+                    if self.tagc % 2:
+                        it.data[0, 0] = newv
+                    else:
+                        it.X = np.full(len(it.data), newv, dtype="<f4")
+                elif k == "Force":
+                    it.force[0, 0] = newv
+                elif k == "FPData":
+                    it.torque[0] = newv
+                elif k == "Events":
+                    it.values[0] = newv
+            if self.nf == 0 and k in ("EMG", "Data3D", "Force", "FPData"):
+                return None
+            if k == "Events" and len(it.values) == 0:
+                return None
+        elif op == "poke":
+            lst = self.handed.get(i)
+            if not isinstance(lst, list):
+                return None
+
+            def fn():
+                lst.append(self.new_item(1))
+                if len(lst) > 1:
+                    del lst[0]
+        elif op == "assign_from":
+            j = lab["j"]
+            o["j"] = j
+            self.share_ok = True
+            src = self.inst[j]
+            if src is None:
+                return None
+
+            def fn():
+                b.tracks = src.tracks
         elif op == "aux":
             def fn():
                 pair = (self.tagc % 5, 7)
@@ -331,6 +415,7 @@ class Harness:
                         val.append(-1)
         else:
             raise common.Machinery(f"unknown op {op}")
+        o["share_ok"] = self.share_ok
         r = dict(ok=True, exc=[], val=val)
         try:
             fn()
@@ -385,6 +470,12 @@ def parse_label(lab):
         return dict(op="encode", i=i)
     if name == "AuxEdit":
         return dict(op="aux", i=i)
+    if name == "EditItem":
+        return dict(op="edit", i=i, pos=_ints(rest)[0])
+    if name == "Poke":
+        return dict(op="poke", i=i)
+    if name == "AssignFrom":
+        return dict(op="assign_from", i=i, j=_ints(rest)[0])
     raise common.Machinery(f"unparsed label {lab!r}")
 
 
@@ -425,7 +516,9 @@ def run_tour(kind, labs, seed):
             break  # the real run left the model's path (an earlier construct failed): stop this tour
         if h.nf == 0 and c["op"] in ("encode", "decode", "aux") and kind in ("EMG", "Data3D", "Force", "FPData"):
             continue  # tracks without frames cannot be encoded; such histories only exercise the editing API
-        steps.append(h.run(c))
+        ev = h.run(c)
+        if ev is not None:          # (a call that makes no sense on this concrete block is skipped)
+            steps.append(ev)
     return dict(kind="EMG0" if (kind == "EMG" and h.nf == 0) else kind, init=init, steps=steps,
                 meta=dict(labels=labs, seed=seed, kind=model))
 
@@ -458,6 +551,10 @@ def select_for(prop):
     return sel
 
 
+def kind_of(model):
+    return model.split("@")[0]
+
+
 def check(prop, tier, seed, replay=None):
     run = common.Run(prop, tier, seed)
     run.assumptions += ["two live instances of one kind per history; item objects are never shared between blocks by the driver",
@@ -472,7 +569,7 @@ def check(prop, tier, seed, replay=None):
         trs = [tr]
     else:
         trs = []
-        budget = {"C15": 1500, "C18": 8000, "C02": 1200}.get(prop, 2500) if tier == "quick" else None
+        budget = {"C15": 1500, "C18": 8000, "C02": 1200, "C20": 900}.get(prop, 2500) if tier == "quick" else None
         rng = random.Random(seed + 5)
         graphs = {}
         for kind in KINDS_OF[prop]:
